@@ -441,6 +441,14 @@ class CallMixin:
                         return T(NONE, "none")
             if at == "copy":
                 return recv
+            if at == "setdefault" and len(n.args) == 2:
+                # m.setdefault(k, v): keeps an existing entry, stores v otherwise; returns the entry
+                k = self.coerce(self.ev(n.args[0], st, old), s[1], "setdefault")
+                v = self.coerce(self.ev(n.args[1], st, old), s[2], "setdefault-value")
+                e = T(("Opt", s[2]), f"(select {recv.s} {k.s})")
+                newm = T(s, f"(ite {is_some(e).s} {recv.s} (store {recv.s} {k.s} {some(c, v).s}))")
+                if self.store_back(f.value, newm, st):
+                    return T(s[2], f"(ite {is_some(e).s} {unopt(e).s} {v.s})")
             if at in ("pop",) and n.args:
                 k = self.coerce(self.ev(n.args[0], st, old), s[1], "pop")
                 e = T(("Opt", s[2]), f"(select {recv.s} {k.s})")
@@ -743,9 +751,10 @@ class CallMixin:
         assert g in st.ghost, f"ghost code may only assign ghost names: {g}"
         arr = st.ghost[g]
         idx = self.coerce(self.ev(tgt.slice, st, self.entry), arr.sort[1], "ghost-idx")
-        vs = arr.sort[2] if arr.sort[0] != "Map" else ("Opt", arr.sort[2])
         if arr.sort[0] == "Set":
             vs = BOOL
+        else:
+            vs = arr.sort[2] if arr.sort[0] != "Map" else ("Opt", arr.sort[2])
         val = self.coerce(val, vs, "ghost")
         st.ghost[g] = T(arr.sort, f"(store {arr.s} {idx.s} {val.s})")
 
